@@ -224,6 +224,29 @@ let handle fields impl : string option * string list =
        if ip <> mp then fails := ("built-proof-differs-from-spec chain_len=" ^ string_of_int (List.length hs)) :: !fails
      | _ -> if not (starts impl "ok") then fails := ("prover-fails-on-honest-chain impl=" ^ impl) :: !fails);
     (Some model, !fails)
+  (* ---- back-to-back provers in one process: the specification has no memory, accumulator A is irrelevant ---- *)
+  | ["proverseq"; consts; _chain_a; chain_b; mode] ->
+    if consts <> consts_field () then (Some "driver: compiled constants differ from K_header.v", []) else
+    let hs = parse_chain chain_b in
+    let model = match build_accumulator_sha hs, acc_run_sha acc_new hs with
+      | Ok roots, Ok a ->
+        let proofs = List.mapi (fun i _ -> List.concat (List.map ub (build_proof_sha (a_chunks a) (n_ i)))) hs in
+        (* C03_built_proof_verifies_sha: every one of these proofs verifies against these roots *)
+        "ok " ^ Util.string_of_items (List.map ub roots) ^ " " ^ Util.string_of_items proofs ^ " " ^ String.concat "," (List.map (fun _ -> "ok") hs)
+      | _ -> "err" in
+    let fails = ref [] in
+    let ctx = " after-another-accumulator mode=" ^ mode ^ " chain_len=" ^ string_of_int (List.length hs) in
+    (match String.split_on_char ' ' impl, String.split_on_char ' ' model with
+     | ["ok"; ir; ip; iv], ["ok"; mr; mp; _] ->
+       if ir <> mr then fails := ("accumulator-root-differs-from-spec" ^ ctx) :: !fails;
+       if ip <> mp then begin
+         let il = String.split_on_char ',' ip and ml = String.split_on_char ',' mp in
+         let bad = List.filter (fun i -> List.nth_opt il i <> List.nth_opt ml i) (List.init (List.length ml) (fun i -> i)) in
+         fails := ("prover-output-differs-from-spec" ^ ctx ^ " records=" ^ String.concat "," (List.map string_of_int bad)) :: !fails
+       end;
+       List.iteri (fun i v -> if v <> "ok" then fails := (Printf.sprintf "honest-proof-rejected%s record=%d" ctx i) :: !fails) (String.split_on_char ',' iv)
+     | _ -> if not (starts impl "ok") then fails := ("prover-fails-on-honest-chain" ^ ctx ^ " impl=" ^ impl) :: !fails);
+    (Some model, List.rev !fails)
   | ["bhwp"; consts; _chain; _i] ->
     if consts <> consts_field () then (Some "driver: compiled constants differ from K_header.v", []) else
     (* BuildHeaderWithProof = BuildProof + the header's RLP; its output is validated by the validate line that follows *)
